@@ -511,8 +511,64 @@ func ruleC04e(c *Ctx, rule string) {
 			c.bad(rule, nm+" does not assign its receiver's fields", fn.Pos(), "the method rewrites field "+bad+" of the expression it is called on: expressions are shared between the table definition and every query plan, so calling it while planning a query changes the table's field (width, name, operands) for ingest, flush and all later queries")
 		}
 	}
+	// constructors and helpers: a function of package expr assigns fields only of objects it
+	// allocated itself — never of an expression it was handed (SHIFT folding a nested shift in place)
+	m := 0
+	for _, fn := range c.P.ModFns {
+		if pkgOf(fn) != "z/expr" || fn.Name() == "DecodeMsgpack" || fn.Signature.Recv() != nil && fn.Parent() == nil {
+			continue
+		}
+		m++
+		for _, in := range instrs(fn) {
+			st, ok := in.(*ssa.Store)
+			if !ok {
+				continue
+			}
+			fa, ok := st.Addr.(*ssa.FieldAddr)
+			if !ok {
+				continue
+			}
+			// only fields of expression objects
+			pt, isP := fa.X.Type().Underlying().(*types.Pointer)
+			if !isP {
+				continue
+			}
+			nt, isN := pt.Elem().(*types.Named)
+			if !isN || nt.Obj().Pkg() == nil || short(nt.Obj().Pkg().Path()) != "z/expr" {
+				continue
+			}
+			if _, isStruct := nt.Underlying().(*types.Struct); !isStruct {
+				continue
+			}
+			base := strip(fa.X)
+			fresh := false
+			if al, isAl := base.(*ssa.Alloc); isAl && al.Parent() == fn {
+				fresh = true
+			}
+			if ph, isPhi := base.(*ssa.Phi); isPhi {
+				fresh = true
+				for _, e := range ph.Edges {
+					if al, isAl := strip(e).(*ssa.Alloc); !isAl || al.Parent() != fn {
+						fresh = false
+					}
+				}
+			}
+			// methods' closures writing their own receiver are covered above
+			if fv, isFV := base.(*ssa.FreeVar); isFV {
+				_ = fv
+				continue
+			}
+			if _, isParamRecv := base.(*ssa.Parameter); isParamRecv && fn.Parent() != nil {
+				continue
+			}
+			if !fresh {
+				c.touch(fn)
+				c.bad(rule, stableName(fn)+" assigns fields only of expressions it allocated", st.Pos(), "a function of package expr writes a field of an expression object it did not allocate (at "+c.P.Pos(st.Pos())+"): the object may be a table's stored field (queries get the table's own expression objects), so building a query expression changes the table definition")
+			}
+		}
+	}
 	if n > 0 {
-		c.ok(rule, itoa(n)+" pointer-receiver methods of package expr examined", token.NoPos, "receiver fields are assigned only by DecodeMsgpack (and reported individually otherwise)")
+		c.ok(rule, itoa(n)+" pointer-receiver methods and "+itoa(m)+" functions of package expr examined", token.NoPos, "fields of existing expression objects are assigned only by DecodeMsgpack (and reported individually otherwise)")
 	}
 	c.floor(rule, "pointer-receiver methods in package expr", n, 60)
 }
